@@ -27,7 +27,7 @@ use vstd::prelude::*;
 //@dropped TERMINATION of abi_type_for_impl is proved only RELATIVE to hypothesis (c) of classes_ok: a finite set `te_universe()` contains every expression left in any class (true of a finite forest; not established by a contract here); native stack depth of the recursion is outside every contract
 //@dropped preconditions NOT discharged anywhere in this harness: registered(var); classes_ok = (a) every variable mentioned by an expression left in a class is registered, (b) packed span offsets are ranked (rank(child) + span.offset <= rank(parent) <= usize::MAX) which is what keeps `ofs + offset` from overflowing, (c) finite universe
 //@dropped function-level statement of the Packed arm is existential over the child results (a child result cannot be named in a postcondition); the exact per-iteration equality against the ACTUAL child results is the labelled loop invariant C12.abi.packed.offsets_are_span_offsets
-//@dropped FixedArray / Mapping / DynamicArray arms: only the outer constructor (and the 256-bit length) of the result is specified, not how the component types were obtained (they are `expect_type` of the recursive results)
+//@dropped FixedArray / Mapping / DynamicArray arms: only the outer constructor (and the 256-bit length) of the result is specified, not how the component types were obtained (they are `expect_type` of the recursive results asked with parent Other); a mutant that asks the element with ParentType::Packed is NOT detected (expect_type itself is under contract)
 //@dropped `conflicts.into_iter().map(|c| format!("{c:?}")).collect()` is R-OPAQUE (`vx_debug_strings`): one uninterpreted string per conflict, in order; Debug formatting is outside Verus
 //@dropped tc/mod.rs: run / lift / assign_vars / infer / unify / the layout loop that feeds `StorageLayout::add` with the pairs (closure `for_each`); `type_of` is a stand-in carrying the contract proved in unit type_of
 //@dropped in-slot bounds of the reported offsets (offset < 256, offset + width <= 256) are NOT decided: they would need "spans lie inside the word and children are as wide as their span" of every Packed expression, which no contract in this harness establishes (merge's Packed arms are R-OPAQUE in unit merge)
@@ -301,9 +301,16 @@ pub open spec fn c_constructed(te: TypeExpression, r: Result<AbiValue>) -> bool 
     &&& te is Mapping && r is Ok ==> r->Ok_0 is Type && r->Ok_0->Type_0 is Mapping
     &&& te is DynamicArray && r is Ok ==> r->Ok_0 is Type && r->Ok_0->Type_0 is DynArray
 }
+/// the children of a packed expression are asked with parent == Packed ("If it has packed as a parent, we want to return them no
+/// matter what"): a child that itself resolves to a packed expression contributes its raw pairs — never a collapsed single type,
+/// struct or padded pair — unless it is cut as an infinite type
+pub open spec fn child_raw(tc0: TypeChecker, typ: TypeVariable, cr: AbiValue) -> bool {
+    tc0.resolved(typ) && tc0.te_of(typ) is Packed ==> cr is Packed || cr == AbiValue::Type(AbiType::InfiniteType)
+}
 /// C12: a packed expression reports the selection of the flattened child results (for SOME child results: see //@dropped)
-spec fn c_packed(te: TypeExpression, parent: ParentType, r: Result<AbiValue>) -> bool {
+spec fn c_packed(tc0: TypeChecker, te: TypeExpression, parent: ParentType, r: Result<AbiValue>) -> bool {
     te is Packed && r is Ok ==> exists|crs: Seq<AbiValue>| crs.len() == te->types@.len()
+        && (forall|k: int| 0 <= k < crs.len() ==> child_raw(tc0, te->types@[k].typ, #[trigger] crs[k]))
         && selected(parent, te->is_struct, #[trigger] flat(crs, te->types@), r->Ok_0)
 }
 /// C12/C01: every reported offset is bounded by the rank of the variable
@@ -608,6 +615,7 @@ width.map(|w: usize| -> (vx_q: usize)
                         vx_it.seq() == vx_spans,
                         vx_crs.len() == vx_it.index@,
                         pairs@ =~= flat(vx_crs, vx_spans.take(vx_it.index@ as int)),           //@ob C12.abi.packed.offsets_are_span_offsets
+                        forall|k: int| 0 <= k < vx_crs.len() ==> child_raw(vx_tc0, vx_spans[k].typ, #[trigger] vx_crs[k]),       //@ob C12.abi.packed.children_asked_as_packed
                         forall|k: int| 0 <= k < pairs@.len() ==> (#[trigger] pairs@[k]).1 <= ofs_rank(var),       //@ob C12.abi.packed.offsets_bounded_by_rank
                         same_frame(vx_tc0, *self),
                         classes_ok(*self),
@@ -721,7 +729,7 @@ vx_debug_strings(conflicts)
             live(*old(self), var, old(seen_exprs)@) ==> c_conflict(old(self).te_of(var), r),                            //@ob C14.abi.conflict_carries_reasons
             live(*old(self), var, old(seen_exprs)@) ==> c_equal(old(self).te_of(var), old(self).ip_of(var), r),         //@ob C14.abi.equal_rejected C17.abi.equal_rejected_located
             live(*old(self), var, old(seen_exprs)@) ==> c_constructed(old(self).te_of(var), r),                         //@ob C14.abi.constructed_keep_constructor
-            live(*old(self), var, old(seen_exprs)@) ==> c_packed(old(self).te_of(var), parent, r),                      //@ob C12.abi.packed.selection
+            live(*old(self), var, old(seen_exprs)@) ==> c_packed(*old(self), old(self).te_of(var), parent, r),                      //@ob C12.abi.packed.selection
             c_ranked(var, r),                                                                                           //@ob C12.abi.packed.offsets_bounded_by_rank
             live(*old(self), var, old(seen_exprs)@) && is_ctor(old(self).te_of(var))
                 ==> final(seen_exprs)@.contains(old(self).te_of(var)),                                             //@ob C14.abi.impl.constructor_recorded_as_seen
@@ -745,7 +753,7 @@ vx_debug_strings(conflicts)
             old(self).resolved(var) ==> c_conflict(old(self).te_of(var), r),                                       //@ob C14.abi.top.conflict_carries_reasons
             old(self).resolved(var) ==> c_equal(old(self).te_of(var), old(self).ip_of(var), r),                    //@ob C14.abi.top.equal_rejected
             old(self).resolved(var) ==> c_constructed(old(self).te_of(var), r),                                    //@ob C14.abi.top.constructed_keep_constructor
-            old(self).resolved(var) ==> c_packed(old(self).te_of(var), ParentType::None, r),                       //@ob C12.abi.top.packed.selection_without_parent
+            old(self).resolved(var) ==> c_packed(*old(self), old(self).te_of(var), ParentType::None, r),                       //@ob C12.abi.top.packed.selection_without_parent
             c_ranked(var, r),                                                                                      //@ob C12.abi.top.offsets_bounded_by_rank
 //@end
 }
